@@ -71,10 +71,13 @@ def run(ctx, canary=False):
         if full:
             calls += [{"k": "project", "seq": q} for q in seqs]
         else:
-            pick = [q for q in seqs if len(q) in (0, len(V))][:3] + rng.sample([q for q in seqs if 1 <= len(q) < len(V)], 5)
+            mid = [q for q in seqs if 1 <= len(q) < len(V)]
+            pick = [q for q in seqs if len(q) in (0, len(V))][:3] + rng.sample(mid, min(5, len(mid)))
             calls += [{"k": "project", "seq": q} for q in pick]
-            calls.append({"k": "many", "list": [q for q in rng.sample([x for x in seqs if 1 <= len(x) <= 3], 4)]})
-            calls.append({"k": "many", "list": [q for q in rng.sample([x for x in seqs if len(x) == 2], 2)] + [list(V)[:1]]})
+            m13 = [x for x in seqs if 1 <= len(x) <= 3]
+            m2 = [x for x in seqs if len(x) == 2] or m13
+            calls.append({"k": "many", "list": rng.sample(m13, min(4, len(m13)))})
+            calls.append({"k": "many", "list": rng.sample(m2, min(2, len(m2))) + [list(V)[:1]]})
             calls.append({"k": "krondot", "kinds": {a: rng.choice(KINDS) for a in V}})
             calls.append({"k": "krondot", "kinds": {a: "identity" for a in V}})
             calls.append({"k": "krondot", "kinds": {a: rng.choice(["ramp", "double0", "ones"]) for a in V}})
